@@ -1,5 +1,240 @@
-import Knee.Model.EvenPoints
-import Knee.Model.Pipeline
+import Knee.Lemmas.EvenPoints
+/-!
+# C14 — evenly inserted points are valid indices, sorted, and respect the worst-knee filter
+
+Model: `Knee.evenInsert`, `Knee.dedupSort` (`np.unique`), `Knee.addEven`
+(postprocessing.add_points_even), `Knee.addEvenKnees` (postprocessing.add_points_even_knees),
+`Knee.wideQ` / `Knee.nptsQ` (the exact per-segment decisions, Layer N).
+Layer S: `wide i` (segment `i` is wide and tall enough) and `npts i` (number of points to insert
+into segment `i`) are oracles; the only contract stated is `0 < npts i` (the Python division
+`(right-left)/number_points` is defined; the proofs do not use it, since `npts i = 0` inserts
+nothing in the model).  `h k` = height of the point with index `k`, `n` = number
+of points of the curve.
+-/
 namespace Knee
-theorem stub_C14 : True := trivial
+
+/-! ### 1. the inserted indices -/
+
+/-- exactly `number_points` indices are inserted -/
+theorem evenInsert_length (l r k : Nat) : (evenInsert l r k).length = k := by
+  simp [evenInsert]
+
+/-- every inserted index lies in the segment `[left, right]` (`_hk` is the Python precondition of
+the division; the model's truncating division does not need it) -/
+theorem evenInsert_range {l r k : Nat} (hlr : l ≤ r) (_hk : 0 < k) :
+    ∀ x ∈ evenInsert l r k, l ≤ x ∧ x ≤ r := by
+  intro x hx
+  refine ⟨?_, evenInsert_le hlr hx⟩
+  rcases mem_evenInsert.1 hx with ⟨j, _, rfl⟩
+  exact Nat.le_add_right _ _
+
+/-- the `j`-th inserted index is `left + (j+1)·inc` with `inc = ⌊(right-left)/number_points⌋`:
+consecutive inserted indices differ by exactly `inc`. -/
+theorem evenInsert_spaced (l r k j : Nat) (hj : j < k) :
+    (evenInsert l r k)[j]?.getD 0 = l + (j + 1) * ((r - l) / k) := by
+  simp [evenInsert, hj]
+
+/-- consecutive inserted indices differ by exactly `inc` (difference form) -/
+theorem evenInsert_step (l r k j : Nat) (hj : j + 1 < k) :
+    (evenInsert l r k)[j + 1]?.getD 0 = (evenInsert l r k)[j]?.getD 0 + (r - l) / k := by
+  rw [evenInsert_spaced l r k (j + 1) hj, evenInsert_spaced l r k j (by omega)]
+  simp only [Nat.add_mul, Nat.one_mul]
+  omega
+
+/-! ### 2. `np.unique` -/
+
+/-- `np.unique` returns a strictly increasing (sorted, duplicate-free) list -/
+theorem dedupSort_strict (l : List Nat) : (dedupSort l).Pairwise (· < ·) := dedupSort_strict' l
+
+/-- `np.unique` keeps exactly the values of its input -/
+theorem mem_dedupSort {x : Nat} {l : List Nat} : x ∈ dedupSort l ↔ x ∈ l := mem_dedupSort'
+
+/-- `np.unique` is the identity on a strictly increasing list -/
+theorem dedupSort_of_strict {l : List Nat} (h : l.Pairwise (· < ·)) : dedupSort l = l :=
+  dedupSort_of_strict' h
+
+/-! ### 3. `add_points_even_knees` (the knees themselves are the markers) -/
+
+section knees
+variable (h : Nat → Rat) (n : Nat) (knees : List Nat) (wide : Nat → Bool) (npts : Nat → Nat)
+  (extremes : Bool)
+
+/-- every gap between consecutive markers `0, k₀, …, k_last, n-1` is a valid index interval -/
+theorem gaps_valid (hn : 2 ≤ n) (hk : ∀ k ∈ knees, k < n) (hks : knees.Pairwise (· < ·)) :
+    ∀ g ∈ gapsOfKnees n knees, g.1 ≤ g.2 ∧ g.2 < n :=
+  gapsOfKnees_bounds n knees hn hk hks
+
+/-- The result is a subsequence of the sorted, duplicate-free union of the candidates. -/
+theorem addEvenKnees_subset :
+    (addEvenKnees h n knees wide npts extremes).Sublist
+      (dedupSort (knees ++
+        (((List.range (gapsOfKnees n knees).length).filter wide).flatMap fun i =>
+          evenInsert ((gapsOfKnees n knees)[i]?.getD (0, 0)).1
+            ((gapsOfKnees n knees)[i]?.getD (0, 0)).2 (npts i))
+        ++ (if extremes then [0, n - 1] else []))) :=
+  worst_sublist h _
+
+/-- Every returned index is a knee, an inserted even point of some wide gap, or — when
+`extremes` — one of the two end points. -/
+theorem addEvenKnees_mem :
+    ∀ x ∈ addEvenKnees h n knees wide npts extremes,
+      x ∈ knees ∨
+      (∃ i, i < (gapsOfKnees n knees).length ∧ wide i = true ∧
+        x ∈ evenInsert ((gapsOfKnees n knees)[i]?.getD (0, 0)).1
+          ((gapsOfKnees n knees)[i]?.getD (0, 0)).2 (npts i)) ∨
+      (extremes = true ∧ (x = 0 ∨ x = n - 1)) := by
+  intro x hx
+  have hx' := mem_dedupSort.1 ((addEvenKnees_subset h n knees wide npts extremes).subset hx)
+  rcases List.mem_append.1 hx' with hx' | hx'
+  · rcases List.mem_append.1 hx' with hx' | hx'
+    · exact Or.inl hx'
+    · rcases List.mem_flatMap.1 hx' with ⟨i, hi, hxi⟩
+      rw [List.mem_filter, List.mem_range] at hi
+      exact Or.inr (Or.inl ⟨i, hi.1, hi.2, hxi⟩)
+  · cases extremes with
+    | false => simp at hx'
+    | true =>
+      simp only [if_true, List.mem_cons, List.not_mem_nil, or_false] at hx'
+      exact Or.inr (Or.inr ⟨rfl, hx'⟩)
+
+/-- **C14 (knees variant, validity).** Every returned index is a valid index of the curve. -/
+theorem addEvenKnees_valid (hn : 2 ≤ n) (hk : ∀ k ∈ knees, k < n)
+    (hks : knees.Pairwise (· < ·)) (_hnp : ∀ i, 0 < npts i) :
+    ∀ x ∈ addEvenKnees h n knees wide npts extremes, x < n := by
+  intro x hx
+  rcases addEvenKnees_mem h n knees wide npts extremes x hx with hx | ⟨i, hi, _, hxi⟩ | ⟨_, hx⟩
+  · exact hk x hx
+  · have hg : (gapsOfKnees n knees)[i]?.getD (0, 0) ∈ gapsOfKnees n knees := by
+      rw [List.getElem?_eq_getElem hi]; exact List.getElem_mem hi
+    have hb := gaps_valid n knees hn hk hks _ hg
+    have := evenInsert_le hb.1 hxi
+    omega
+  · omega
+
+/-- **C14 (knees variant, order).** The result is strictly increasing. -/
+theorem addEvenKnees_strict :
+    (addEvenKnees h n knees wide npts extremes).Pairwise (· < ·) :=
+  (dedupSort_strict _).sublist (addEvenKnees_subset h n knees wide npts extremes)
+
+/-- **C14 (knees variant, heights).** The heights of the result are non-increasing. -/
+theorem addEvenKnees_heights :
+    (addEvenKnees h n knees wide npts extremes).Pairwise (fun a b => h b ≤ h a) :=
+  worst_heights_nonincreasing h _
+
+end knees
+
+/-! ### 4. `add_points_even` (segments of the reduced curve) -/
+
+section reduced
+variable (h : Nat → Rat) (n : Nat) (reduced knees : List Nat) (wide : Nat → Bool)
+  (npts : Nat → Nat) (extremes : Bool)
+
+/-- With the simplifier's own removed table, both `mapping` calls are look-ups in `reduced`:
+the result is the worst-knee filter of the sorted union of the mapped knees, the even points of
+every wide segment `reduced[i] … reduced[i+1]`, and (optionally) the two end points. -/
+theorem addEven_eq (hred : reduced.Pairwise (· < ·)) (h0 : reduced[0]? = some 0)
+    (hkn : knees.Pairwise (· ≤ ·)) (hkb : ∀ k ∈ knees, k < reduced.length) :
+    addEven h n reduced (computeRemoved reduced) knees wide npts extremes =
+      worstFilter h (dedupSort (knees.map (fun k => reduced[k]?.getD 0) ++
+        (((List.range (reduced.length - 1)).filter wide).flatMap fun i =>
+          evenInsert (reduced[i]?.getD 0) (reduced[i + 1]?.getD 0) (npts i))
+        ++ (if extremes then [0, n - 1] else []))) := by
+  unfold addEven
+  have hsegs := segs_strict wide (reduced.length - 1)
+  have hpos : ∀ p ∈ (((List.range (reduced.length - 1)).filter wide).flatMap fun i => [i, i + 1]),
+      p < reduced.length := by
+    intro p hp
+    rcases List.mem_flatMap.1 hp with ⟨i, hi, hpi⟩
+    rw [List.mem_filter, List.mem_range] at hi
+    simp only [List.mem_cons, List.not_mem_nil, or_false] at hpi
+    omega
+  simp only [mapping_computeRemoved reduced knees hred h0 hkn hkb,
+    mapping_computeRemoved reduced _ hred h0 (segPositions_mono _ hsegs) hpos,
+    pairs_eq npts (fun i => reduced[i]?.getD 0)]
+
+/-- **C14 (reduced variant, validity).** Every returned index is a valid index of the curve. -/
+theorem addEven_valid (hred : reduced.Pairwise (· < ·)) (h0 : reduced[0]? = some 0)
+    (hrb : ∀ r ∈ reduced, r < n) (hkn : knees.Pairwise (· ≤ ·))
+    (hkb : ∀ k ∈ knees, k < reduced.length) (_hnp : ∀ i, 0 < npts i) :
+    ∀ x ∈ addEven h n reduced (computeRemoved reduced) knees wide npts extremes, x < n := by
+  intro x hx
+  rw [addEven_eq h n reduced knees wide npts extremes hred h0 hkn hkb] at hx
+  have hx' := mem_dedupSort.1 ((worst_sublist h _).subset hx)
+  have hlen : 0 < reduced.length := by
+    cases reduced with
+    | nil => simp at h0
+    | cons _ _ => simp
+  have hn : 0 < n := by
+    have : (0 : Nat) ∈ reduced := by
+      have := getD_mem reduced hlen
+      rwa [h0] at this
+    exact Nat.lt_of_le_of_lt (Nat.zero_le _) (hrb 0 this)
+  rcases List.mem_append.1 hx' with hx' | hx'
+  · rcases List.mem_append.1 hx' with hx' | hx'
+    · rcases List.mem_map.1 hx' with ⟨k, hk, rfl⟩
+      exact hrb _ (getD_mem reduced (hkb k hk))
+    · rcases List.mem_flatMap.1 hx' with ⟨i, hi, hxi⟩
+      rw [List.mem_filter, List.mem_range] at hi
+      have hi1 : i + 1 < reduced.length := by omega
+      have hle : reduced[i]?.getD 0 ≤ reduced[i + 1]?.getD 0 :=
+        strict_getD_le reduced hred (Nat.le_succ i) hi1
+      have hr := hrb _ (getD_mem reduced hi1)
+      have := evenInsert_le hle hxi
+      omega
+  · cases extremes with
+    | false => simp at hx'
+    | true =>
+      simp only [if_true, List.mem_cons, List.not_mem_nil, or_false] at hx'
+      omega
+
+/-- **C14 (reduced variant, order).** The result is strictly increasing (no hypothesis). -/
+theorem addEven_strict (removed : List (Nat × Nat)) :
+    (addEven h n reduced removed knees wide npts extremes).Pairwise (· < ·) :=
+  (dedupSort_strict _).sublist (worst_sublist h _)
+
+/-- **C14 (reduced variant, heights).** The heights of the result are non-increasing. -/
+theorem addEven_heights (removed : List (Nat × Nat)) :
+    (addEven h n reduced removed knees wide npts extremes).Pairwise (fun a b => h b ≤ h a) :=
+  worst_heights_nonincreasing h _
+
+end reduced
+
+/-! ### 5. Layer N: the exact decisions are consistent -/
+
+/-- A segment that passes the width test (`normalised width > 2·tx`) gets at least two points:
+`ceil(width / (2·tx)) ≥ 2`. -/
+theorem nptsQ_ge_two {xl yl xr yr dx dy tx ty : Rat}
+    (hw : wideQ xl yl xr yr dx dy tx ty = true) (htx : 0 < tx) (_hdx : 0 < dx) :
+    2 ≤ nptsQ xl xr dx tx :=
+  nptsQ_ge_two' hw htx
+
+/-! Non-vacuity.  `n = 21`, knees `4, 6, 16`: the gaps are `(0,4), (4,6), (6,16), (16,20)`; gaps 0
+(2 points, inc 2: `2, 4`) and 2 (3 points, inc 3: `9, 12, 15`) are wide.  Heights `40 - k`
+(decreasing) keep everything; raising point 12 makes the worst-knee filter drop it.  Reduced
+variant: `reduced = [0,2,3,12,13,20]`, knees at positions 1 and 4, wide segments 2 (`3…12`, 3 points:
+`6, 9, 12`) and 4 (`13…20`, 2 points: `16, 19`). -/
+example : evenInsert 3 12 3 = [6, 9, 12] ∧ evenInsert 3 13 3 = [6, 9, 12] := by decide
+example : dedupSort [5, 3, 9, 3, 1, 5] = [1, 3, 5, 9] := by decide
+example : gapsOfKnees 21 [4, 6, 16] = [(0, 4), (4, 6), (6, 16), (16, 20)] := by decide
+example : addEvenKnees (fun k => (((40 : Int) - (k : Int) : Int) : Rat)) 21 [4, 6, 16]
+    (fun i => i == 2 || i == 0) (fun i => if i = 2 then 3 else 2) true
+    = [0, 2, 4, 6, 9, 12, 15, 16, 20] := by decide +kernel
+example : addEvenKnees (fun k => if k = 12 then 100 else (((40 : Int) - (k : Int) : Int) : Rat))
+    21 [4, 6, 16] (fun i => i == 2 || i == 0) (fun i => if i = 2 then 3 else 2) false
+    = [2, 4, 6, 9, 15, 16] := by decide +kernel
+example : addEven (fun k => if k = 12 then 100 else (((40 : Int) - (k : Int) : Int) : Rat)) 21
+    [0, 2, 3, 12, 13, 20] (computeRemoved [0, 2, 3, 12, 13, 20]) [1, 4]
+    (fun i => i == 2 || i == 4) (fun i => if i = 2 then 3 else 2) true
+    = [0, 2, 6, 9, 13, 16, 19, 20] := by decide +kernel
+/-- the hypotheses of `addEvenKnees_valid` / `addEven_valid` hold on the examples -/
+example : (2 ≤ 21) ∧ (∀ k ∈ [4, 6, 16], k < 21) ∧ ([4, 6, 16] : List Nat).Pairwise (· < ·)
+    ∧ ([0, 2, 3, 12, 13, 20] : List Nat).Pairwise (· < ·)
+    ∧ ([0, 2, 3, 12, 13, 20] : List Nat)[0]? = some 0
+    ∧ (∀ r ∈ [0, 2, 3, 12, 13, 20], r < 21) ∧ ([1, 4] : List Nat).Pairwise (· ≤ ·)
+    ∧ (∀ k ∈ [1, 4], k < [0, 2, 3, 12, 13, 20].length) := by decide
+example : ∀ i : Nat, 0 < (if i = 2 then 3 else 2) := by intro i; split <;> omega
+/-- Layer N: a segment spanning 6/10 of the width with `tx = 1/10` is wide and gets 3 points -/
+example : wideQ 2 10 8 4 10 10 (1/10) (1/10) = true ∧ nptsQ 2 8 10 (1/10) = 3 := by
+  decide +kernel
+
 end Knee
